@@ -47,11 +47,13 @@ impl FileSystem for PhysicalFS {
         let fs_path = self.get_path(path);
         std::fs::create_dir(&fs_path).map_err(|err| match err.kind() {
             ErrorKind::AlreadyExists => {
-                let metadata = std::fs::metadata(&fs_path).unwrap();
-                if metadata.is_dir() {
-                    return VfsError::from(VfsErrorKind::DirectoryExists);
+                // the occupant may be something metadata() cannot resolve (a dangling symbolic link)
+                match std::fs::metadata(&fs_path) {
+                    Ok(metadata) if metadata.is_dir() => {
+                        VfsError::from(VfsErrorKind::DirectoryExists)
+                    }
+                    _ => VfsError::from(VfsErrorKind::FileExists),
                 }
-                VfsError::from(VfsErrorKind::FileExists)
             }
             _ => err.into(),
         })?;
